@@ -236,6 +236,49 @@ func registerReflect() {
 		}
 		return rtypeIface(rv(a[0]).T)
 	})
+	ptrOf := func(ex *Exec, a []Value) Value {
+		r := rv(a[0])
+		if r.T == nil {
+			ex.rvPanic("call of reflect.Value.Pointer on zero Value")
+		}
+		// the identity of the referenced object as a number: equal exactly for the same object
+		var key interface{}
+		switch x := r.V.(type) {
+		case *Value:
+			if x == nil {
+				return smt.BVC(64, 0)
+			}
+			key = x
+		case *Map:
+			if x == nil {
+				return smt.BVC(64, 0)
+			}
+			key = x
+		case *Chan:
+			if x == nil {
+				return smt.BVC(64, 0)
+			}
+			key = x
+		case Slice:
+			if len(x) == 0 {
+				return smt.BVC(64, 0)
+			}
+			key = &x[0]
+		default:
+			ex.abort("reflect.Value.Pointer on %T is not modelled", r.V)
+		}
+		if ex.objIDs == nil {
+			ex.objIDs = map[interface{}]uint64{}
+		}
+		id, ok := ex.objIDs[key]
+		if !ok {
+			id = uint64(len(ex.objIDs)+1) * 4096
+			ex.objIDs[key] = id
+		}
+		return smt.BVC(64, id)
+	}
+	R("(reflect.Value).Pointer", ptrOf)
+	R("(reflect.Value).UnsafePointer", ptrOf)
 	R("(reflect.Value).IsNil", func(ex *Exec, a []Value) Value { return smt.BoolC(ex.rvIsNil(rv(a[0]))) })
 	R("(reflect.Value).CanInterface", func(ex *Exec, a []Value) Value {
 		if rv(a[0]).T == nil {
